@@ -9,6 +9,7 @@ fn main() {
 	let rt = tokio::runtime::Builder::new_current_thread().enable_all().build().unwrap();
 	match args[1].as_str() {
 		"origins" => rt.block_on(origins(&args[2], &args[3])),
+		"origins-chroot" => origins_chroot(&args[2], &args[3]),
 		"origins-class" => origins_class(),
 		"signals" => signals(&args[2]),
 		"signals-table" => signals_table(),
@@ -49,7 +50,6 @@ fn comps(p: &Path) -> Vec<String> {
 }
 
 async fn origins(cases: &str, base: &str) {
-	use project_origins::{origins, types};
 	let base = PathBuf::from(base);
 	std::fs::create_dir_all(&base).unwrap();
 	for case in read_cases(cases) {
@@ -57,11 +57,57 @@ async fn origins(cases: &str, base: &str) {
 		let root = base.join(format!("c{id}"));
 		let _ = std::fs::remove_dir_all(&root);
 		std::fs::create_dir_all(&root).unwrap();
+		if case["chroot"].as_bool().unwrap_or(false) {
+			// the chain starts at the file system root: run the case in a child process that chroots into the scratch directory
+			let f = base.join(format!("c{id}.json"));
+			std::fs::write(&f, serde_json::to_string(&case).unwrap()).unwrap();
+			let out = std::process::Command::new(std::env::current_exe().unwrap())
+				.args(["origins-chroot", &f.to_string_lossy(), &root.to_string_lossy()]).output().unwrap();
+			let line = String::from_utf8_lossy(&out.stdout);
+			match serde_json::from_str::<Value>(line.trim()) {
+				Ok(v) if out.status.success() => emit(&v),
+				_ => emit(&json!({"id": id, "skipped": format!("chroot unavailable ({})", out.status)})),
+			}
+			let _ = std::fs::remove_file(&f);
+		} else {
+			emit(&origins_case(&case, root.clone(), &base).await);
+		}
+		let _ = std::fs::remove_dir_all(&root);
+		let _ = std::fs::remove_dir_all(base.join(format!("t{id}")));
+	}
+}
+
+fn origins_chroot(casefile: &str, root: &str) {
+	let case: Value = serde_json::from_str(&std::fs::read_to_string(casefile).unwrap()).unwrap();
+	let c = std::ffi::CString::new(root).unwrap();
+	if unsafe { libc::chroot(c.as_ptr()) } != 0 || std::env::set_current_dir("/").is_err() {
+		std::process::exit(3);
+	}
+	let rt = tokio::runtime::Builder::new_current_thread().enable_all().build().unwrap();
+	let v = rt.block_on(origins_case(&case, PathBuf::from("/"), Path::new("/")));
+	emit(&v);
+}
+
+/// one chain: level 0 is `root`, level i is root/l1/../l{i}; with "link": k the directory of level k is a symbolic link to a
+/// directory elsewhere (whose own parent carries a marker that is NOT on the chain of the given path)
+async fn origins_case(case: &Value, root: PathBuf, base: &Path) -> Value {
+	use project_origins::{origins, types};
+	let id = case["id"].as_u64().unwrap();
+	{
 		let levels = case["levels"].as_array().unwrap();
+		let link = case["link"].as_u64().map(|k| k as usize);
 		let mut dirs = vec![root.clone()];
 		for i in 1..levels.len() {
 			let d = dirs[i - 1].join(format!("l{i}"));
-			std::fs::create_dir_all(&d).unwrap();
+			if link == Some(i) {
+				let outside = base.join(format!("t{id}"));
+				let target = outside.join("elsewhere");
+				std::fs::create_dir_all(&target).unwrap();
+				std::fs::write(outside.join("Cargo.toml"), b"x").unwrap();
+				std::os::unix::fs::symlink(&target, &d).unwrap();
+			} else {
+				std::fs::create_dir_all(&d).unwrap();
+			}
 			dirs.push(d);
 		}
 		for (i, lvl) in levels.iter().enumerate() {
@@ -92,8 +138,7 @@ async fn origins(cases: &str, base: &str) {
 			t.sort();
 			tys.push(json!({"comps": comps(d), "listing": listing(d), "types": t}));
 		}
-		emit(&json!({"id": id, "start": comps(start), "origins": found, "chain": chain, "dirs": tys}));
-		let _ = std::fs::remove_dir_all(&root);
+		json!({"id": id, "start": comps(start), "origins": found, "chain": chain, "dirs": tys})
 	}
 }
 
